@@ -1,6 +1,6 @@
 #!/bin/bash
 # usage: take_seed.sh <Cxx> <suffix>  -- takes /tmp/seed2-out/Cxx into /verif/seeded/Cxx_<suffix>, confirms it, tries it
-P=$1; SUF=$2; SRC=/tmp/seed2-out/$P; D=/verif/seeded/${P}_$SUF
+P=$1; SUF=$2; SRC=${SEEDSRC:-/tmp/seed3-out}/$P; D=/verif/seeded/${P}_$SUF
 [ -f $SRC/patch.diff ] || { echo "$P: no patch"; exit 2; }
 mkdir -p $D; cp $SRC/patch.diff $SRC/zz_seed_demo_test.go $SRC/meta.json $D/ 2>/dev/null
 /verif/tools/confirm_seed.sh ${P}_$SUF
